@@ -129,7 +129,11 @@ func runHybridHistory(r *rand.Rand, o hybridOpts, t *Trace) *Case {
 	if hasV && kind != 0 && r.Intn(8) != 0 {
 		train()
 	}
+	var heldRun func() // a search builder kept across the history
 	for step := 0; step < o.nops; step++ {
+		if heldRun != nil && r.Intn(5) == 0 {
+			heldRun()
+		}
 		x := r.Intn(100)
 		switch {
 		case x < 34: // add
@@ -479,48 +483,57 @@ func runHybridHistory(r *rand.Rand, o hybridOpts, t *Trace) *Case {
 			if len(gs) > 0 {
 				s = s.WithMetadataGroups(gs...)
 			}
-			lnT := map[uint64]uint64{}
-			if hasT {
-				lnT = lnTableFor(tidx, tqs)
-			}
-			var res []comet.HybridSearchResult
-			var e error
-			if r.Intn(5) == 0 { // the builder is executed twice: the second answer is the one that is judged
-				catchPanic(func() { s.Execute() })
-				t.Stat("hybrid.search_builder_reused")
-			}
-			pan := catchPanic(func() { res, e = s.Execute() })
-			code := errCodeHybrid(e)
-			if pan {
-				code = 12
-			}
-			tq := make([][]int, len(tqs))
-			for i, q := range tqs {
-				tq[i] = in.toks(q)
-			}
-			ops = append(ops, func(c *Case) {
-				c.N(4).Vec(vq).N(len(tq))
-				for _, q := range tq {
-					c.Ints(q)
+			// what depends on the index as it is now (the ln oracle, the answer) is computed when the
+			// builder is executed: now, and again later in the history if the builder is kept
+			run := func(first bool) (int, []comet.HybridSearchResult) {
+				lnT := map[uint64]uint64{}
+				if hasT {
+					lnT = lnTableFor(tidx, tqs)
 				}
-				c.N(len(fs))
-				for _, f := range fs {
-					encFilter(c, f)
+				var res []comet.HybridSearchResult
+				var e error
+				if first && r.Intn(5) == 0 { // the builder is executed twice: the second answer is the one that is judged
+					catchPanic(func() { s.Execute() })
+					t.Stat("hybrid.search_builder_reused")
 				}
-				c.N(len(gs))
-				for _, g := range gs {
-					c.B(g.Logic == comet.AND).N(len(g.Filters))
-					for _, f := range g.Filters {
+				pan := catchPanic(func() { res, e = s.Execute() })
+				code := errCodeHybrid(e)
+				if pan {
+					code = 12
+				}
+				tq := make([][]int, len(tqs))
+				for i, q := range tqs {
+					tq[i] = in.toks(q)
+				}
+				ops = append(ops, func(c *Case) {
+					c.N(4).Vec(vq).N(len(tq))
+					for _, q := range tq {
+						c.Ints(q)
+					}
+					c.N(len(fs))
+					for _, f := range fs {
 						encFilter(c, f)
 					}
-				}
-				c.N(k).F32(thr).N(aggz).N(cutoff).N(np).N(fk).F64(cfg.VectorWeight).F64(cfg.TextWeight).F64(cfg.K)
-				encLn(c, lnT)
-				c.N(code).N(len(res))
-				for _, x := range res {
-					c.U(uint64(x.ID)).F64(x.Score)
-				}
-			})
+					c.N(len(gs))
+					for _, g := range gs {
+						c.B(g.Logic == comet.AND).N(len(g.Filters))
+						for _, f := range g.Filters {
+							encFilter(c, f)
+						}
+					}
+					c.N(k).F32(thr).N(aggz).N(cutoff).N(np).N(fk).F64(cfg.VectorWeight).F64(cfg.TextWeight).F64(cfg.K)
+					encLn(c, lnT)
+					c.N(code).N(len(res))
+					for _, x := range res {
+						c.U(uint64(x.ID)).F64(x.Score)
+					}
+				})
+				return code, res
+			}
+			code, res := run(true)
+			if r.Intn(6) == 0 {
+				heldRun = func() { run(false); t.Stat("hybrid.search_builder_kept_across_history") }
+			}
 			t.Stat("hyb.search")
 			switch {
 			case code != 0:
